@@ -32,6 +32,7 @@ class C04(DevProp):
     pid = "C04"
     fail_term = "c04_failures k"
     mis_term = "c04_mismatch k"
+    soak = True
     monitor_name = ("C04 monitor (State() after every event equals the property's arithmetic - unit steps, saturation, pair reset, defaults - and every "
                     "press sounds base+12*octave+semitone with the configured velocity on (channel+offset) mod 16, or nothing outside 0-127)")
     correspondence_name = "C04 view (Note-On triple or silence at note-key presses; State() after every event)"
@@ -126,10 +127,14 @@ class C04(DevProp):
             cases.append({"cfg": cfg, "abs": [], "events": tap(16) + tap(17) + tap(18) + tap(ACT["octave_down"]) + tap(17), "tag": "defaults"})
         # random histories under the action discipline
         for i in range(160 if not big else 5000):
-            cfg = devgen.gen_config(rng, with_exit=False, n_maps=rng.choice([1, 2, 3]))
-            h = devgen.gen_history(rng, cfg, rng.randint(20, 90), p_action=0.5, action_discipline=True)
-            cases.append({"cfg": cfg, "abs": [], "events": h + devgen.release_all(h), "tag": "random"})
+            cases.append(self.soak_case(rng))
         return cases
+
+    def soak_case(self, rng):
+        """one case of the 'random' stream: random histories under the action discipline (also the stream of the extracted-model soak)"""
+        cfg = devgen.gen_config(rng, with_exit=False, n_maps=rng.choice([1, 2, 3]))
+        h = devgen.gen_history(rng, cfg, rng.randint(20, 90), p_action=0.5, action_discipline=True)
+        return {"cfg": cfg, "abs": [], "events": h + devgen.release_all(h), "tag": "random"}
 
 
 def run(run_):
